@@ -254,7 +254,10 @@ func runC12(cfg Config) {
 			"verif yield sites (exactly one caller runs between two yields; upstream calls complete in scheduler-chosen order with data / "+
 			"missing / error): the totally ordered event trace must be accepted by the Lean machine (trace validation), each caller's "+
 			"result must equal the machine's, calls must resolve to leader/follower as in the machine; monitors: no deadlock, at most one "+
-			"upstream call per ID in flight; plus free-running stress of DedupQueue (Get/Has) and WriteDedupQueue (Store/Get overlap) with a "+
+			"upstream call per ID in flight; writers / readers / HasChunk callers on ONE real WriteDedupQueue (and HasChunk callers on a DedupQueue) over a "+
+			"scripted upstream store under the same kind of scheduler (uniform, priorities with change points, later callers first, bursts): the "+
+			"trace must be a run of WdqSys.step (wdq.accept: WDedup.step + Dedup.step per kind) resp. Dedup.step, results equal; monitors: a read "+
+			"that found a write in flight returns that write's chunk and error, a writer the error of its request's upstream call; plus free-running stress of DedupQueue (Get/Has) and WriteDedupQueue (Store/Get overlap) with a "+
 			"gated store. non-trivial = distinct trace with at least one follower")
 	m, err := StartModel(cfg.Driver)
 	if err != nil {
@@ -302,6 +305,9 @@ func runC12(cfg Config) {
 				What: "the implementation's event trace is not a behaviour of the model (or results differ)"})
 		}
 	}
+
+	// trace validation of WriteDedupQueue (writers, readers, HasChunk callers on one queue) and DedupQueue.HasChunk
+	runC12Wdq(cfg, rep, m, rng)
 
 	// free-running stress: WriteDedupQueue (reads overlapping a write) and HasChunk
 	for it := 0; it < cfg.N(150, 3000); it++ {
